@@ -3,7 +3,7 @@ import numpy as np
 
 from .. import graphs as G
 from .. import oracles as O
-from .common import call, close, dtype_variants_agree
+from .common import call, close, dtype_variants_agree, layout_variants_agree
 
 PROP = 'C09'
 ANCHORS = ['clustering_coef_bu', 'clustering_coef_bd', 'clustering_coef_wu', 'clustering_coef_wd',
@@ -80,6 +80,10 @@ def run(case, bct, REC):
         ok, T = call(REC, PROP, 'transitivity_wd', bct.transitivity_wd, W)
         if ok and np.isfinite(Td):
             REC.check(PROP, 'transitivity_wd', 'value', close(T, Td, rtol=1e-9, atol=1e-12), dict(det, got=T, expected=Td))
+        if 3 <= n <= 9 and sc in ('bin', 'real'):
+            for fname in ('clustering_coef_wd', 'transitivity_wd', 'clustering_coef_bd', 'transitivity_bd') + \
+                    (('clustering_coef_wu', 'transitivity_wu', 'clustering_coef_bu', 'transitivity_bu', 'clustering_coef_wu_sign') if not directed else ()):
+                layout_variants_agree(REC, PROP, fname, getattr(bct, fname), W)
         if sc == 'bin' and n <= 30:
             for fname in ('clustering_coef_bd', 'transitivity_bd') + (('clustering_coef_bu', 'transitivity_bu') if not directed else ()):
                 dtype_variants_agree(REC, PROP, fname, getattr(bct, fname), W)
